@@ -424,7 +424,7 @@ impl<'a> InputGen<'a> {
 
     /// what interprets the contents of the list item `it` inside `ctx`
     fn child_ctx(&self, ctx: &Ctx<'a>, it: &Item) -> Option<Ctx<'a>> {
-        let name = path_string(&it.name);
+        let name = name_string(&it.name);
         let of_type = |t: &'a Ty| -> Option<Ctx<'a>> {
             let mut t = t;
             loop {
